@@ -11,6 +11,7 @@
    [extract f t] of extractfile(t).read(). *)
 From Coq Require Import ZArith List Bool.
 From DH Require Import Base.Layout Spec.VmTar Model.VmTar Proofs.VmTar.
+From DH Require Gen.VmTar.
 Import ListNotations.
 Open Scope Z_scope.
 
@@ -90,6 +91,17 @@ Theorem C20_header_roundtrip :
              (if a_visor m then a_fix m else 0)).
 Proof. exact header_roundtrip. Qed.
 Print Assumptions C20_header_roundtrip.
+
+(* The type tables and the block size of the hand-written tarfile model are those of the tarfile
+   module the implementation runs on (regenerated from the interpreter on every run). *)
+Theorem C20_tarfile_tables :
+  SUPPORTED_TYPES = Gen.VmTar.tarfile_SUPPORTED_TYPES /\ REGULAR_TYPES = Gen.VmTar.tarfile_REGULAR_TYPES /\
+  GNU_TYPES = Gen.VmTar.tarfile_GNU_TYPES /\ [XHDTYPE; XGLTYPE; SOLARIS_XHDTYPE] = Gen.VmTar.tarfile_PAX_TYPES /\
+  BLOCK = Gen.VmTar.tarfile_BLOCKSIZE /\ DIRTYPE = Gen.VmTar.tarfile_DIRTYPE /\ AREGTYPE = Gen.VmTar.tarfile_AREGTYPE /\
+  GNUTYPE_LONGNAME = Gen.VmTar.tarfile_GNUTYPE_LONGNAME /\ GNUTYPE_LONGLINK = Gen.VmTar.tarfile_GNUTYPE_LONGLINK /\
+  GNUTYPE_SPARSE = Gen.VmTar.tarfile_GNUTYPE_SPARSE /\ LNKTYPE = Gen.VmTar.tarfile_LNKTYPE /\ SYMTYPE = Gen.VmTar.tarfile_SYMTYPE.
+Proof. exact tarfile_tables. Qed.
+Print Assumptions C20_tarfile_tables.
 
 (* On ANY byte string in which no block carries the visor magic, the vmtar reader is the
    standard reader: same members, same outcome (extraction is the same function of a member). *)
